@@ -67,6 +67,10 @@ func panicValue(kind string) (any, string) {
 		return heimdall.ErrNoRuleFound, "PkNoRule"
 	case "config":
 		return heimdall.ErrConfiguration, "PkOther"
+	case "nil":
+		return nil, "PkOther" // panic(nil) is a *runtime.PanicNilError since Go 1.21
+	case "abort":
+		return http.ErrAbortHandler, "PkOther"
 	}
 
 	return "?", "PkOther"
@@ -80,7 +84,7 @@ func runReq(w *vf.Writer, nrand int) {
 	cases = append(cases, reqCase{Kind: "extract"}, reqCase{Kind: "extract", Strats: []string{""}},
 		reqCase{Kind: "extract", Strats: []string{"", "tok"}}, reqCase{Kind: "extract-via-recovery"})
 
-	for _, k := range []string{"string", "int", "error", "runtime", "authn", "authz", "comm", "timeout", "arg", "norule", "config"} {
+	for _, k := range []string{"string", "int", "error", "runtime", "authn", "authz", "comm", "timeout", "arg", "norule", "config", "nil", "abort"} {
 		cases = append(cases, reqCase{Kind: "recover", Panic: k})
 	}
 
